@@ -13,7 +13,7 @@ RULE = ("all sequences of scored positions up to the length bound over the alpha
         "(minScore, breakSegmentThreshold) pairs; non-trivial = a case in which a running sum hits a threshold equality "
         "(== minScore, == running max - break, == 0), or a run is rejected for minScore, or >= 2 segments are produced; "
         "distinct by (thresholds, sequence)")
-ASSUMPTIONS = ["scores are small integers (no float rounding in the running sums)",
+ASSUMPTIONS = ["scores are small integers or multiples of 1/8 (sums are exact in binary floating point); scores that are not exactly representable are outside the alphabet",
                "reference scanner mc/props/c13.py:reference written from the property statement, shares no code with COMA"]
 
 ALPHABET = [('P', 3), ('P', 2), ('P', 1), ('P', 0), ('P', -1), ('U', 0), ('U', -1), ('Q', -3)]
@@ -194,7 +194,38 @@ class SeqLayer(core.Layer):
         return check_case([tuple(x) for x in case['symbols']], case['minScore'], case['breakSegmentThreshold'], None)
 
 
+class Dyadic(SeqLayer):
+    """scores with three decimals that are exactly representable in binary (multiples of 1/8): any rounding of a segment score to
+    fewer decimals, or any other non-exact arithmetic on it, shows while the reference scanner's float sums stay exact"""
+    ALPHA = [('P', 1.625), ('P', 1.0), ('P', 0.375), ('P', -0.125), ('U', -0.625), ('Q', -1.0)]
+    THR = [(ms, bs) for ms in (1.0, 2.0, 2.625) for bs in (0.0, 0.625, 2.0)]
+
+    def __init__(self, name, maxlen, optional=False):
+        SeqLayer.__init__(self, name, maxlen, optional=optional)
+        self.prefixes = list(itertools.product(range(len(self.ALPHA)), repeat=2))
+        self.bounds = dict(max_length=maxlen, alphabet=[list(a) for a in self.ALPHA], thresholds=[list(t) for t in self.THR])
+        self.rule = 'all sequences of length 0..%d over a %d-symbol dyadic alphabet x %d threshold pairs' % (maxlen, len(self.ALPHA), len(self.THR))
+
+    def nblocks(self):
+        return len(self.THR) * len(self.prefixes)
+
+    def run_block(self, b, acc):
+        ms, bs = self.THR[b // len(self.prefixes)]
+        pi = b % len(self.prefixes)
+        pre = [self.ALPHA[i] for i in self.prefixes[pi]]
+        if pi == 0:
+            acc.seq += 1
+            check_case([], ms, bs, acc)
+        if pi < len(self.ALPHA):
+            acc.seq += 1
+            check_case([self.ALPHA[pi]], ms, bs, acc)
+        for L in range(2, self.maxlen + 1):
+            for tail in itertools.product(self.ALPHA, repeat=L - 2):
+                acc.seq += 1
+                check_case(pre + list(tail), ms, bs, acc)
+
+
 def layers(tier, seed):
     if tier == 'quick':
-        return [SeqLayer('L<=6', 6)]
-    return [SeqLayer('L<=6', 6), SeqLayer('L=7', 7, minlen=7), SeqLayer('L=8', 8, minlen=8, optional=True)]
+        return [SeqLayer('L<=6', 6), Dyadic('dyadic,L<=6', 6)]
+    return [SeqLayer('L<=6', 6), Dyadic('dyadic,L<=7', 7), SeqLayer('L=7', 7, minlen=7), SeqLayer('L=8', 8, minlen=8, optional=True)]
